@@ -78,15 +78,18 @@ def Inv.diffVersions (inv : Inv) (left : Option Nat) (right : Nat) : Except Err 
       | none => .error .notFound
       | some rv => .ok (diffStates rv.state (lv.map (·.state)))
 
+/-- one step of `list_file_versions`: `acc` = (content of the path in the version before, versions collected) -/
+def Inv.fileVersionsStep (inv : Inv) (p : LPath) (acc : Option Digest × List Nat) (i : Nat) : Option Digest × List Nat :=
+  match inv.versions[i]? with
+  | none => acc
+  | some v =>
+    match v.lookup p with
+    | some d => if acc.1 != some d then (some d, acc.2 ++ [i + 1]) else acc
+    | none => if acc.1.isSome then (none, acc.2 ++ [i + 1]) else acc
+
 /-- `list_file_versions`: the versions in which the path appeared, changed digest or disappeared -/
 def Inv.fileVersions (inv : Inv) (p : LPath) : Except Err (List Nat) :=
-  let (_, vs) := (List.range inv.versions.length).foldl (fun (acc : Option Digest × List Nat) i =>
-    match inv.versions[i]? with
-    | none => acc
-    | some v =>
-      match v.lookup p with
-      | some d => if acc.1 != some d then (some d, acc.2 ++ [i + 1]) else acc
-      | none => if acc.1.isSome then (none, acc.2 ++ [i + 1]) else acc) (none, [])
+  let vs := ((List.range inv.versions.length).foldl (inv.fileVersionsStep p) (none, [])).2
   if vs.isEmpty then .error .notFound else .ok vs
 
 /-- `construct_state`: the version a path of version `vn` was last updated in — walk back while the
